@@ -232,6 +232,31 @@ pub fn check_find_and_iter(
                 .with("expected", ms_json(&exp_it)),
         ),
     }
+    // The consuming Iterator methods, called on the crate's iterator itself
+    // (every eighth case, short sequences): they must describe the sequence
+    // that `next()` yields.
+    if got_it.as_ref().ok() == Some(&exp_it) && exp_it.len() <= 40 && h % 8 == 3 {
+        let k = (h as usize / 8) % (exp_it.len() + 1);
+        let overl = b.cfg.kind == Kind::Standard && !anchored;
+        let r = call(|| b.s.iter_methods(mk_input(hay, span, anchored), k, overl));
+        rep.eval();
+        rep.tally("iterator_method_cases");
+        let exp_o = if overl { Some(o.overlapping(hay, span.0, span.1, false).len()) } else { None };
+        let want = (exp_it.len(), exp_it.last().copied(), exp_it.get(k).copied(), exp_o);
+        match r {
+            Ok(gotm) if gotm == want => {}
+            Ok(gotm) => rep.violation(
+                &sig("iter", &b.cfg, anchored, pats, "iterator_methods"),
+                format!("count()/last()/nth({})/overlapping count() = {:?}, the sequence yielded by next() gives {:?}", k, gotm, want),
+                case_json(pats, &b.cfg, hay, span, anchored, "iter"),
+            ),
+            Err(e) => rep.violation(
+                &sig("iter", &b.cfg, anchored, pats, "failure"),
+                format!("an Iterator method failed: {}", e),
+                case_json(pats, &b.cfg, hay, span, anchored, "iter"),
+            ),
+        }
+    }
     if exp_it.len() >= 2 {
         rep.tally("iter_with_2plus_matches");
     }
